@@ -78,6 +78,7 @@ def gen_branch(tape, name, kinds, allow_stop=True):
     b.stop_at = None
     b.results = 1
     b.form = "explicit"
+    b.none_at = None
     if b.kind == "source":
         b.m = tape.draw(3, "src-m")
         b.npost = tape.draw(2, "src-post")
@@ -90,6 +91,9 @@ def gen_branch(tape, name, kinds, allow_stop=True):
         b.form = tape.choice(["tuple", "explicit", "bare"], "form")
         if b.form == "bare" and (b.pre or b.npost):
             b.form = "tuple"
+        # the last post-element maps its k-th result to None: None is a result like any other
+        if b.npost and tape.chance(1, 5, "post-yields-None"):
+            b.none_at = tape.draw(3, "none-at")
     else:
         b.stages = []
         for _ in range(1 + tape.draw(3, "nstages")):
@@ -141,13 +145,40 @@ def describe_branch(b):
     return "%s=seq[%s](%s)" % (b.name, b.form, b.stages)
 
 
+class NoneAt(object):
+    """post function: the k-th result becomes None"""
+
+    def __init__(self, name, k):
+        self.name = name
+        self.k = k
+        self.n = 0
+
+    def __call__(self, value):
+        n = self.n
+        self.n += 1
+        if n == self.k:
+            return None
+        return (self.name, value)
+
+
+def post_calls(b, log):
+    out = []
+    for j in range(b.npost):
+        nm = "%s.post%d" % (b.name, j)
+        fn = None
+        if j == b.npost - 1 and getattr(b, "none_at", None) is not None:
+            fn = NoneAt(nm, b.none_at)
+        out.append(ProbeCall(log, nm, fn=fn))
+    return out
+
+
 # ---------------------------------------------------------------------------
 # real branches
 
 def real_branch(b, log):
     if b.kind == "source":
         els = [ProbeSrc(log, b.name + ".src", b.m)]
-        els += [ProbeCall(log, "%s.post%d" % (b.name, j)) for j in range(b.npost)]
+        els += post_calls(b, log)
         return lena.core.Source(*els)
     if b.kind in ("fc", "fr"):
         els = []
@@ -166,7 +197,7 @@ def real_branch(b, log):
         else:
             probe = ProbeFR(log, b.name + ".fr", stop_at=b.stop_at, results=b.results)
         els.append(probe)
-        els += [ProbeCall(log, "%s.post%d" % (b.name, j)) for j in range(b.npost)]
+        els += post_calls(b, log)
         if b.form == "bare":
             return probe
         if b.form == "tuple":
@@ -235,7 +266,7 @@ class MBranch(object):
                 else:
                     self.stages.append(("multi", ProbeRunMulti(log, nm, per=st[1], trailer=st[2])))
         if b.kind != "seq":
-            self.post = [ProbeCall(log, "%s.post%d" % (b.name, j)) for j in range(b.npost)]
+            self.post = post_calls(b, log)
 
     # fill path: value goes through the pre-elements into the probe
     def fill(self, v):
